@@ -14,6 +14,13 @@
 (*   tbl       table id -> bag of method ids registered in it              *)
 (*   lockh     holder of the build lock (0 = free)          [UseLock]      *)
 (*   regd      the registered method set (Unregister removes)              *)
+(*   an        the argument analysis: an.obj = what self.argument_analysis *)
+(*             holds ("none" | "empty" | "full"), an.gen = the analysis    *)
+(*             the generated entry point was made from, an.peeked[t] = the *)
+(*             thread has read inspect.signature(f) for its next call      *)
+(*             (what a Callable[[..], ..] annotation of another function   *)
+(*             does with an overloaded argument on every call: it runs     *)
+(*             analyze_arguments outside the build lock)  [Peekers]        *)
 (* Per thread t: pc, k (next method to register), res (outcome of its      *)
 (* call), plus whether it still has a call to make.                        *)
 (*                                                                         *)
@@ -32,10 +39,12 @@
 EXTENDS Naturals, Integers, Sequences, FiniteSets, TLC
 
 CONSTANTS Threads, NMeth, BadM, MaxFail,
-          SwapLast, RestoreOnFail, UseLock, CallsPer
+          SwapLast, RestoreOnFail, UseLock, CallsPer,
+          Peekers,          \* threads that read the signature before each of their calls
+          AtomicAnalysis    \* TRUE: the analysis is published when complete; FALSE: assigned empty, then refilled in place
 
-VARIABLES entry, compiled, cur, gmap, tbl, lockh, regd, pc, k, res, todo, nfail, ntbl
-vars == <<entry, compiled, cur, gmap, tbl, lockh, regd, pc, k, res, todo, nfail, ntbl>>
+VARIABLES entry, compiled, cur, gmap, tbl, lockh, regd, pc, k, res, todo, nfail, ntbl, an
+vars == <<entry, compiled, cur, gmap, tbl, lockh, regd, pc, k, res, todo, nfail, ntbl, an>>
 
 Meths == 1..NMeth
 Bag0 == [m \in Meths |-> 0]
@@ -44,6 +53,7 @@ Bag0 == [m \in Meths |-> 0]
 NoMeth == 0
 Ambig == 0 - 1
 Config == 0 - 2
+Broken == 0 - 3     \* the generated entry point was made from an empty analysis ("f() takes 0 positional arguments")
 Answer(b) ==
   IF \A m \in Meths : b[m] = 0 THEN NoMeth
   ELSE LET top == CHOOSE m \in Meths : b[m] > 0 /\ \A o \in Meths : b[o] > 0 => o <= m IN
@@ -58,21 +68,40 @@ Init ==
   /\ pc = [t \in Threads |-> "idle"] /\ k = [t \in Threads |-> 0]
   /\ res = [t \in Threads |-> <<>>] /\ todo = [t \in Threads |-> CallsPer]
   /\ nfail = 0 /\ ntbl = 0
+  /\ an = [obj |-> "none", gen |-> "none", peeked |-> [t \in Threads |-> FALSE]]
 
 (* ---- a call ---- *)
+(* inspect.signature(f).parameters -> Ovld.analyze_arguments, outside the build lock *)
+PeekStart(t) ==
+  /\ t \in Peekers /\ pc[t] = "idle" /\ todo[t] > 0 /\ ~an.peeked[t]
+  /\ IF AtomicAnalysis
+     THEN /\ an' = [an EXCEPT !.obj = "full", !.peeked[t] = TRUE]
+          /\ UNCHANGED pc
+     ELSE /\ an' = [an EXCEPT !.obj = "empty"]
+          /\ pc' = [pc EXCEPT ![t] = "peekfill"]
+  /\ UNCHANGED <<entry, compiled, cur, gmap, tbl, lockh, regd, k, res, todo, nfail, ntbl>>
+
+PeekFill(t) ==
+  /\ pc[t] = "peekfill"
+  /\ an' = [an EXCEPT !.obj = "full", !.peeked[t] = TRUE]
+  /\ pc' = [pc EXCEPT ![t] = "idle"]
+  /\ UNCHANGED <<entry, compiled, cur, gmap, tbl, lockh, regd, k, res, todo, nfail, ntbl>>
+
 StartCall(t) ==
   /\ pc[t] = "idle" /\ todo[t] > 0
+  /\ t \in Peekers => an.peeked[t]
   /\ todo' = [todo EXCEPT ![t] = @ - 1]
   /\ IF entry = "boot"
      THEN pc' = [pc EXCEPT ![t] = IF UseLock THEN "acquire" ELSE "newmap"]
      ELSE pc' = [pc EXCEPT ![t] = "dispatch"]
+  /\ an' = [an EXCEPT !.peeked[t] = FALSE]
   /\ UNCHANGED <<entry, compiled, cur, gmap, tbl, lockh, regd, k, res, nfail, ntbl>>
 
 Acquire(t) ==
   /\ pc[t] = "acquire" /\ lockh = 0
   /\ lockh' = t
   /\ pc' = [pc EXCEPT ![t] = IF compiled THEN "release" ELSE "newmap"]
-  /\ UNCHANGED <<entry, compiled, cur, gmap, tbl, regd, k, res, todo, nfail, ntbl>>
+  /\ UNCHANGED <<entry, compiled, cur, gmap, tbl, regd, k, res, todo, nfail, ntbl, an>>
 
 NewMap(t) ==
   /\ pc[t] = "newmap"
@@ -80,11 +109,34 @@ NewMap(t) ==
   /\ cur' = ntbl + 1
   /\ tbl' = [j \in 1..(ntbl + 1) |-> IF j = ntbl + 1 THEN Bag0 ELSE tbl[j]]
   /\ pc' = [pc EXCEPT ![t] = "analyze"]
-  /\ UNCHANGED <<entry, compiled, gmap, lockh, regd, k, res, todo, nfail>>
+  /\ UNCHANGED <<entry, compiled, gmap, lockh, regd, k, res, todo, nfail, an>>
 
+(* analyze_arguments + generate_dispatch.  Published when complete (AtomicAnalysis): one step, the entry point  *)
+(* is generated from the builder's own, complete analysis.  In place (~AtomicAnalysis): the shared attribute is  *)
+(* first assigned an empty analysis, refilled, and read back by generate_dispatch - three steps, between which  *)
+(* a reader of the signature may assign / refill it too.                                                        *)
+AfterGen == IF SwapLast THEN "reg" ELSE "swap"
 Analyze(t) ==
   /\ pc[t] = "analyze"
-  /\ pc' = [pc EXCEPT ![t] = IF SwapLast THEN "reg" ELSE "swap"]
+  /\ IF AtomicAnalysis
+     THEN /\ an' = [an EXCEPT !.obj = "full", !.gen = "full"]
+          /\ pc' = [pc EXCEPT ![t] = AfterGen]
+          /\ k' = [k EXCEPT ![t] = 1]
+     ELSE /\ an' = [an EXCEPT !.obj = "empty"]
+          /\ pc' = [pc EXCEPT ![t] = "fill"]
+          /\ UNCHANGED k
+  /\ UNCHANGED <<entry, compiled, cur, gmap, tbl, lockh, regd, res, todo, nfail, ntbl>>
+
+Fill(t) ==
+  /\ pc[t] = "fill"
+  /\ an' = [an EXCEPT !.obj = "full"]
+  /\ pc' = [pc EXCEPT ![t] = "generate"]
+  /\ UNCHANGED <<entry, compiled, cur, gmap, tbl, lockh, regd, k, res, todo, nfail, ntbl>>
+
+Generate(t) ==
+  /\ pc[t] = "generate"
+  /\ an' = [an EXCEPT !.gen = an.obj]
+  /\ pc' = [pc EXCEPT ![t] = AfterGen]
   /\ k' = [k EXCEPT ![t] = 1]
   /\ UNCHANGED <<entry, compiled, cur, gmap, tbl, lockh, regd, res, todo, nfail, ntbl>>
 
@@ -92,7 +144,7 @@ Swap(t) ==
   /\ pc[t] = "swap"
   /\ entry' = "gen" /\ gmap' = cur
   /\ pc' = [pc EXCEPT ![t] = IF SwapLast THEN "setcompiled" ELSE "reg"]
-  /\ UNCHANGED <<compiled, cur, tbl, lockh, regd, k, res, todo, nfail, ntbl>>
+  /\ UNCHANGED <<compiled, cur, tbl, lockh, regd, k, res, todo, nfail, ntbl, an>>
 
 (* register_signature re-reads self.map: the table is `cur` *now* *)
 RegisterOne(t) ==
@@ -112,49 +164,49 @@ RegisterOne(t) ==
                /\ UNCHANGED <<entry, compiled, lockh, pc, res>>
      ELSE /\ k' = [k EXCEPT ![t] = @ + 1]
           /\ UNCHANGED <<entry, compiled, lockh, pc, res, tbl>>
-  /\ UNCHANGED <<cur, gmap, regd, todo, nfail, ntbl>>
+  /\ UNCHANGED <<cur, gmap, regd, todo, nfail, ntbl, an>>
 
 EndReg(t) ==
   /\ pc[t] = "reg" /\ k[t] > NMeth
   /\ pc' = [pc EXCEPT ![t] = IF SwapLast THEN "swap" ELSE "setcompiled"]
-  /\ UNCHANGED <<entry, compiled, cur, gmap, tbl, lockh, regd, k, res, todo, nfail, ntbl>>
+  /\ UNCHANGED <<entry, compiled, cur, gmap, tbl, lockh, regd, k, res, todo, nfail, ntbl, an>>
 
 SetCompiled(t) ==
   /\ pc[t] = "setcompiled"
   /\ compiled' = TRUE
   /\ pc' = [pc EXCEPT ![t] = IF UseLock THEN "release" ELSE "dispatch"]
-  /\ UNCHANGED <<entry, cur, gmap, tbl, lockh, regd, k, res, todo, nfail, ntbl>>
+  /\ UNCHANGED <<entry, cur, gmap, tbl, lockh, regd, k, res, todo, nfail, ntbl, an>>
 
 Release(t) ==
   /\ pc[t] = "release"
   /\ lockh' = 0
   /\ pc' = [pc EXCEPT ![t] = "dispatch"]
-  /\ UNCHANGED <<entry, compiled, cur, gmap, tbl, regd, k, res, todo, nfail, ntbl>>
+  /\ UNCHANGED <<entry, compiled, cur, gmap, tbl, regd, k, res, todo, nfail, ntbl, an>>
 
 Dispatch(t) ==
   /\ pc[t] = "dispatch"
-  /\ res' = [res EXCEPT ![t] = Append(@, Answer(tbl[cur]))]
+  /\ res' = [res EXCEPT ![t] = Append(@, IF an.gen = "full" THEN Answer(tbl[cur]) ELSE Broken)]
   /\ pc' = [pc EXCEPT ![t] = "idle"]
-  /\ UNCHANGED <<entry, compiled, cur, gmap, tbl, lockh, regd, k, todo, nfail, ntbl>>
+  /\ UNCHANGED <<entry, compiled, cur, gmap, tbl, lockh, regd, k, todo, nfail, ntbl, an>>
 
 (* an exception / interrupt at an arbitrary point of a build *)
 Fail(t) ==
   /\ nfail < MaxFail
   \* "release": between _compiled = True and the end of compile() the handler still applies
-  /\ pc[t] \in {"newmap", "analyze", "swap", "reg", "setcompiled"} \cup (IF UseLock /\ lockh = t THEN {"release"} ELSE {})
+  /\ pc[t] \in {"newmap", "analyze", "fill", "generate", "swap", "reg", "setcompiled"} \cup (IF UseLock /\ lockh = t THEN {"release"} ELSE {})
   /\ nfail' = nfail + 1
   /\ res' = [res EXCEPT ![t] = Append(@, Config)]
   /\ IF RestoreOnFail THEN entry' = "boot" /\ compiled' = FALSE ELSE UNCHANGED <<entry, compiled>>
   /\ lockh' = IF lockh = t THEN 0 ELSE lockh
   /\ pc' = [pc EXCEPT ![t] = "idle"]
-  /\ UNCHANGED <<cur, gmap, tbl, regd, k, todo, ntbl>>
+  /\ UNCHANGED <<cur, gmap, tbl, regd, k, todo, ntbl, an>>
 
 (* the offending method is removed (function not yet successfully built:     *)
 (* _update does not rebuild, the next call does)                             *)
 RemoveBad ==
   /\ BadM \in regd /\ \A t \in Threads : pc[t] = "idle"
   /\ regd' = regd \ {BadM}
-  /\ UNCHANGED <<entry, compiled, cur, gmap, tbl, lockh, pc, k, res, todo, nfail, ntbl>>
+  /\ UNCHANGED <<entry, compiled, cur, gmap, tbl, lockh, pc, k, res, todo, nfail, ntbl, an>>
 
 AllDone == \A t \in Threads : pc[t] = "idle" /\ todo[t] = 0
 Done == AllDone /\ UNCHANGED vars
@@ -162,7 +214,8 @@ Done == AllDone /\ UNCHANGED vars
 Next ==
   \/ Done
   \/ \E t \in Threads :
-       \/ StartCall(t) \/ Acquire(t) \/ NewMap(t) \/ Analyze(t) \/ Swap(t) \/ RegisterOne(t)
+       \/ PeekStart(t) \/ PeekFill(t)
+       \/ StartCall(t) \/ Acquire(t) \/ NewMap(t) \/ Analyze(t) \/ Fill(t) \/ Generate(t) \/ Swap(t) \/ RegisterOne(t)
        \/ EndReg(t) \/ SetCompiled(t) \/ Release(t) \/ Dispatch(t) \/ Fail(t)
   \/ RemoveBad
 
@@ -175,14 +228,14 @@ Spec == Init /\ [][Next]_vars
 (* build itself (Fail / the invalid method).                                 *)
 AnswersCorrect ==
   [][\A t \in Threads :
-       (pc[t] = "dispatch" /\ pc'[t] = "idle") => (Buildable /\ Answer(tbl[cur]) = Correct)]_vars
+       (pc[t] = "dispatch" /\ pc'[t] = "idle") => (Buildable /\ an.gen = "full" /\ Answer(tbl[cur]) = Correct)]_vars
 
 (* C19 (MaxFail = 0, BadM = 0): every call returns what it would alone *)
 EachAsAlone ==
   \A t \in Threads : \A j \in DOMAIN res[t] : res[t][j] = Correct \/ res[t][j] = Config
 
 FinalStateCorrect ==
-  AllDone => (entry = "gen" => (compiled /\ Buildable /\ Answer(tbl[cur]) = Correct))
+  AllDone => (entry = "gen" => (compiled /\ Buildable /\ an.gen = "full" /\ Answer(tbl[cur]) = Correct))
 
 (* after the offender is gone and no more faults strike, calls succeed *)
 RecoversAfterRemoval ==
